@@ -98,18 +98,9 @@ Theorem difference_encloses : forall C so, CarrierLaws C -> forall I J x,
   mem C so x I -> ~ mem C so x J -> mem C so x (difference_assign1 C so I J).
 Proof. exact Sets.difference1_encloses. Qed.
 
-(* the two-argument difference_assign(x, y) AS IT IS does not enclose (info word overwritten) *)
-Definition difference2_encloses_full : Prop := forall C so, CarrierLaws C -> forall z I J x,
+Theorem difference2_encloses : forall C so, CarrierLaws C -> forall z I J x,
   mem C so x I -> ~ mem C so x J -> mem C so x (difference_assign2 C so z I J).
-
-Theorem difference2_encloses_refuted : exists (z I J : itv QC) (x : Q),
-  mem QC true x I /\ ~ mem QC true x J /\ ~ mem QC true x (difference_assign2 QC true z I J).
-Proof.
-  exists z0, (lower_unbounded 5 false), (fin 3 false 7 false), (-1).
-  split; [split; vm_compute; intuition discriminate|].
-  split; [intros [H _]; vm_compute in H; apply H; reflexivity|].
-  intros [H _]. vm_compute in H. apply H. reflexivity.
-Qed.
+Proof. exact Sets.difference2_encloses. Qed.
 
 Theorem refine_existential_encloses : forall C so, CarrierLaws C -> forall r I J x,
   mem C so x I -> (exists y, mem C so y J /\ rel_holds r x y) -> mem C so x (refine_existential C so r I J).
